@@ -19,6 +19,7 @@ When a clause fails the harness evaluates the property's clauses itself with exa
 """
 import json
 import math
+import os
 import threading
 from fractions import Fraction as F
 import vlib
@@ -63,15 +64,26 @@ def up(x):
     return f
 
 
-HUGE = 2**28
+def scale_of(Vs, hq, exclude=()):
+    """magnitude the float tolerances are relative to: the largest optimal / heuristic value, EXCEPT at the
+    appended 'treasure' state of add_jackpots (index in `exclude`): its value is a single exact product
+    (reward c * 2^k, k >= 30) and reaches every other value only multiplied by 2^-k, so it adds no
+    floating-point noise; letting it into the scale would blow the tolerances up by >= 1e9"""
+    return max([F(1)] + [abs(x) for i, x in enumerate(Vs) if i not in exclude]
+               + [abs(x) for i, x in enumerate(hq) if i not in exclude])
 
 
-def scale_of(Vs, hq):
-    """magnitude the float tolerances are relative to: the largest optimal / heuristic value, EXCEPT the
-    values >= 2^28 of the appended 'treasure' states (add_jackpots): those are single exact products
-    (reward c * 2^k, k >= 30) and reach every other value only multiplied by 2^-k, so they add no
-    floating-point noise; letting them into the scale would blow the tolerances up by ~1e9"""
-    return max([F(1)] + [abs(x) for x in list(Vs) + list(hq) if abs(x) < HUGE])
+def excluded(case):
+    t = ((case.get("tweak") or {}).get("jackpots") or {}).get("treasure")
+    if t and len(case["vstar"]) > t["state"] and not case.get("other_problem"):
+        return {t["state"]}
+    return set()
+
+
+def tolerances(scale):
+    """rho: 10-decimal rounding of the arg-max in _policy_iteration (< 1e-10 between tied actions) plus
+    float noise of the linear solve; ups: slack of 'held value >= optimum' and of the initial value"""
+    return F(2, 10**10) + F(1, 10**12) * scale, F(1, 10**9) + F(1, 10**11) * scale
 
 
 def prep(mdp):
@@ -179,8 +191,8 @@ def extreme_probs(rng, m):
 
 
 def add_jackpots(rng, m, nonpos):
-    """rare branches that matter: 1-2 rows get an extra successor with probability p = 2^-k, k in 27..40
-    (below np.isclose's default atol 1e-8), the rest of the row scaled by 1 - p (all dyadic, exact doubles).
+    """rare branches that matter: 1-2 rows get an extra successor with probability p = 2^-k, k in 27..60
+    (below np.isclose's default atol 1e-8; msdm gets the nearest doubles, so for k > 50 the other entries of the row are not rescaled in floating point), the rest of the row scaled by 1 - p (all dyadic, exact doubles).
     The rare branch goes to an absorbing state or an arbitrary other state with reward +-c/p, or (reward 0)
     to an appended 'treasure' state that is reachable only through rare branches and pays c/p on its way to
     an absorbing state - so the large value enters through the boundary value of a not-yet-expanded node.
@@ -195,7 +207,7 @@ def add_jackpots(rng, m, nonpos):
     treasure = None
     if absorbing and rng.random() < .55:
         treasure = n
-        kT = rng.randint(30, 40)        # with c >= 1 below: value >= 2^30, see scale_of
+        kT = rng.randint(30, 60)        # with c >= 1 below: value >= 2^30, see scale_of
         a = rng.randrange(m["nA"])
         m["n"] = n + 1
         m["actions"].append([a])
@@ -208,7 +220,7 @@ def add_jackpots(rng, m, nonpos):
         s, a = map(int, key.split(","))
         row = m["trans"][key]
         inrow = {ns for ns, p in row}
-        k = info["treasure"]["k"] if treasure is not None and not info["rows"] else rng.randint(27, 40)
+        k = info["treasure"]["k"] if treasure is not None and not info["rows"] else rng.randint(27, 60)
         p = F(1, 2**k)
         if treasure is not None and not info["rows"]:
             tgt, r = treasure, F(0)
@@ -237,6 +249,107 @@ def add_jackpots(rng, m, nonpos):
     return info
 
 
+def add_slow_exit(rng, m):
+    """undiscounted only: an appended state W whose ONLY route to termination has probability 2^-k
+    (k in 27..32; zero-reward self-loop otherwise) and pays r on exit, so V*(W) = r exactly although the
+    exit takes 2^k expected steps; some ordinary row is redirected to W with ordinary probability"""
+    n = m["n"]
+    absorbing = [s for s in range(n) if m["absorbing"][s]]
+    rows = [key for key, row in m["trans"].items()
+            if not m["absorbing"][int(key.split(",")[0])] and sum(1 for ns, p in row if F(p) > 0) >= 2]
+    if F(m["gamma"]) != 1 or not absorbing or not rows:
+        return None
+    k = rng.randint(27, 32)
+    W, a, g = n, rng.randrange(m["nA"]), rng.choice(absorbing)
+    m["n"] = n + 1
+    m["actions"].append([a])
+    m["absorbing"].append(False)
+    m["trans"]["%d,%d" % (W, a)] = [[W, str(1 - F(1, 2**k))], [g, str(F(1, 2**k))]]
+    m["reward"]["%d,%d,%d" % (W, a, g)] = str(-F(rng.randint(1, 24), 4))
+    key = rng.choice(rows)
+    s0, a0 = map(int, key.split(","))
+    row = m["trans"][key]
+    j = rng.choice([i for i, (ns, p) in enumerate(row) if F(p) > 0])
+    half = F(row[j][1]) / 2           # supports only grow, so properness is kept (W itself is proper)
+    row[j][1] = str(half)
+    row.append([W, str(half)])
+    m["reward"]["%d,%d,%d" % (s0, a0, W)] = str(-F(rng.randint(0, 8), 4))
+    if m["reward"]["%d,%d,%d" % (s0, a0, W)] == "0":
+        del m["reward"]["%d,%d,%d" % (s0, a0, W)]
+    return {"state": W, "k": k, "from": key}
+
+
+def nondyadic(rng, m, nonpos):
+    """probabilities / rewards that are not exact doubles: thirds, tenths, sevenths (0.7/0.2/0.1, rows whose
+    float sum is not exactly 1.0); supports unchanged, so properness is kept.  The model gets the rationals,
+    msdm the nearest doubles"""
+    two = [(F(1, 3), F(2, 3)), (F(1, 10), F(9, 10)), (F(3, 7), F(4, 7)), (F(7, 10), F(3, 10))]
+    three = [(F(1, 3), F(1, 3), F(1, 3)), (F(7, 10), F(2, 10), F(1, 10)), (F(1, 7), F(2, 7), F(4, 7))]
+    cnt = 0
+    for key, row in list(m["trans"].items()):
+        s, a = map(int, key.split(","))
+        pos = [ns for ns, p in row if F(p) > 0]
+        if m["absorbing"][s] or len(pos) not in (1, 2, 3):
+            continue
+        if len(pos) > 1:
+            ps = list(rng.choice(two if len(pos) == 2 else three))
+            rng.shuffle(ps)
+            it = iter(ps)
+            m["trans"][key] = [[ns, (str(next(it)) if F(p) > 0 else "0")] for ns, p in row]
+            cnt += 1
+        for ns in pos:
+            r = F(rng.randint(-30, 0 if nonpos else 30), rng.choice([3, 7, 10]))
+            k3 = "%d,%d,%d" % (s, a, ns)
+            if r != 0:
+                m["reward"][k3] = str(r)
+            else:
+                m["reward"].pop(k3, None)
+    pos = [(s, p) for s, p in m["init"] if F(p) > 0]
+    if len(pos) in (2, 3):
+        ps = list(rng.choice(two if len(pos) == 2 else three))
+        it = iter(ps)
+        m["init"] = [[s, (str(next(it)) if F(p) > 0 else "0")] for s, p in m["init"]]
+    # a row of ten 0.1s (its float sum is 0.9999999999999999)
+    ten = False
+    n = m["n"]
+    if n >= 11:
+        cands = [key for key in m["trans"] if not m["absorbing"][int(key.split(",")[0])]]
+        if cands:
+            key = rng.choice(cands)
+            s = int(key.split(",")[0])
+            succ = [n - 1] + rng.sample([x for x in range(n - 1) if x != s], 9)
+            for ns, p in m["trans"][key]:
+                m["reward"].pop("%s,%d" % (key, ns), None)
+            m["trans"][key] = [[ns, "1/10"] for ns in succ]
+            for ns in succ:
+                m["reward"]["%s,%d" % (key, ns)] = str(F(-rng.randint(0, 30), 10))
+            ten = True
+    return {"rows": cnt, "ten_tenths_row": ten}
+
+
+def gen_chain(rng, n, gamma):
+    """corridor of n states (n not a power of two): action 0 steps +1, action 1 steps +2 (or +1 at the end),
+    occasionally slipping back; the optimal path has up to n - 1 steps"""
+    absorbing = [False] * (n - 1) + [True]
+    actions, trans, reward = [], {}, {}
+    for s in range(n):
+        if absorbing[s]:
+            actions.append([0])
+            trans["%d,0" % s] = [[s, "1"]]
+            continue
+        actions.append([0, 1])
+        for a in (0, 1):
+            t = min(n - 1, s + 1 + a)
+            row = [[t, "1"]]
+            if s > 0 and rng.random() < .2:
+                row = [[t, "3/4"], [s - 1, "1/4"]]
+            trans["%d,%d" % (s, a)] = row
+            for ns, p in row:
+                reward["%d,%d,%d" % (s, a, ns)] = str(-F(rng.randint(1, 4) + 2 * a, rng.choice([1, 2])))
+    return {"n": n, "nA": 2, "actions": actions, "trans": trans, "reward": reward, "absorbing": absorbing,
+            "init": [[0, "1"]], "gamma": gamma or rng.choice(gen_mdp.GAMMAS_DISC)}
+
+
 def scale_rewards(m, k):
     m["reward"] = {key: str(F(r) * k) for key, r in m["reward"].items()}
 
@@ -256,6 +369,11 @@ def gen_rep(rng, multi):
         "h_as": rng.choice(["callable", "number", "int"]),
         "mdp_reuse": multi and rng.random() < .6,
         "touch": rng.random() < .3,
+        "share": rng.random() < .5,            # one list / distribution object handed out for equal rows
+        "int_numbers": rng.random() < .4,      # integral rewards / probabilities passed as Python ints
+        # rewards exactly representable in float32 passed as np.float32: OFF by default - on the unchanged msdm this
+        # loses precision (NumPy 2 scalar promotion in _state_nodes_to_matrices, reported); C03_FLOAT32=1 turns it on
+        "float32_rewards": bool(os.environ.get("C03_FLOAT32")) and rng.random() < .25,
     }
 
 
@@ -272,6 +390,12 @@ def gen_neartie(rng):
     nA = rng.choice([2, 2, 3])
     goal = n - 1
     stay = F(1023, 1024)
+    # big: values ~1e3 .. 1e9 with a gap of RELATIVE size 2e-6 .. 8e-6 between the two actions (absolute gap
+    # >= 2e-3, far above the 10-decimal rounding): an arg-max / tie test done with a relative tolerance
+    # (np.isclose's 1e-5) would merge them; short return time (stay 1/2), so the values stay ~ the rewards
+    big = rng.random() < .3
+    if big:
+        stay = F(1, 2)
     actions, trans, reward = [[0]], {"0,0": [[1, "1"]]}, {"0,0,1": str(F(-rng.randint(0, 2), 4))}
     if reward["0,0,1"] == "0":
         del reward["0,0,1"]
@@ -284,11 +408,16 @@ def gen_neartie(rng):
             delta = F(rng.randint(4, 8), 2**34)      # 2.3e-10 .. 4.7e-10: just above the 10-decimal rounding grid
         else:
             delta = F(rng.randint(4, 8), 2**24)      # 2^-22 .. 2^-21
+        if big:
+            e = rng.choice([10, 20, 30])
+            mlt = rng.choice([1, 3, 5])
+            r0 = -F(mlt * 2**e)
+            delta = F(mlt * rng.randint(2, 8) * 2**e, 2**19)      # relative to V ~ 2*r0: 2e-6 .. 8e-6
         for a in acts:
             row = [[t, str(stay)], [t + 1, str(1 - stay)]]
             rng.shuffle(row)
             trans["%d,%d" % (t, a)] = row
-            r = r0 if a == good else (r0 - delta if a == 1 - good else r0 - F(1, 4))
+            r = r0 if a == good else (r0 - delta if a == 1 - good else r0 + r0 / 4)
             for ns, p in row:
                 reward["%d,%d,%d" % (t, a, ns)] = str(r)
     actions.append([0])
@@ -297,7 +426,8 @@ def gen_neartie(rng):
     absorbing[goal] = True
     init = [[0, "1"]] if rng.random() < .5 else [[1, "1"]]
     return {"n": n, "nA": nA, "actions": actions, "trans": trans, "reward": reward, "absorbing": absorbing,
-            "init": init, "gamma": rng.choice(["1", "1", "1023/1024", "4095/4096", "1048575/1048576"])}
+            "init": init, "gamma": rng.choice(["1", "1", "1023/1024", "4095/4096", "1048575/1048576"]),
+            "big": big}
 
 
 def gen_large(rng, K):
@@ -351,8 +481,10 @@ def vstar_dag(m):
     def qsa(s, a):
         return sum(F(p) * (F(m["reward"].get("%d,%d,%d" % (s, a, ns), "0")) + g * val(ns))
                    for ns, p in m["trans"]["%d,%d" % (s, a)] if F(p) > 0)
-    import sys
-    sys.setrecursionlimit(10000)
+    # the large families number their states so that every successor has a higher index: fill the memo
+    # from the back (no deep recursion on corridors of several hundred states)
+    for s in reversed(range(m["n"])):
+        val(s)
     return [val(s) for s in range(m["n"])], qsa
 
 
@@ -363,46 +495,9 @@ def vstar_of(m, family):
     return c01.exact_vstar(P, R, av, masked, g)
 
 
-def gen_case(rng, tier, family=None):
-    """a case = ONE planner object (heuristic, seed, flags) and the list of MDPs it plans on in turn"""
-    family = family or "random"
-    shape = family
-    tweak = {}
-    if family == "neartie":
-        plans = [gen_neartie(rng)]
-    elif family == "large":
-        plans = [gen_large(rng, rng.randint(1040, 1120))]
-    else:
-        nmax = 7 if tier == "quick" else 10
-        gamma = "1" if rng.random() < .3 else None
-        sparse = rng.random() < .4
-        shape = "sparse" if sparse else "dense"
-        if sparse:
-            m = gen_sparse(rng, 13 if tier == "quick" else 16, gamma)
-        else:
-            nm = 1 if rng.random() < .08 else nmax          # a few single-state MDPs in every run
-            m = gen_mdp.gen_mdp(rng, nmax=nm, amax=3, gamma=gamma,
-                                proper=(gamma == "1"), min_states=min(nm, rng.choice([1, 2, 3, 4])))
-        if rng.random() < .12:
-            tweak["extreme_probs"] = extreme_probs(rng, m)
-        if rng.random() < .12:
-            tweak["reward_scale"] = rng.choice([1000, 10**5])
-            scale_rewards(m, tweak["reward_scale"])
-        nonpos0 = F(m["gamma"]) == 1 or sparse or not any(F(r) > 0 for r in m["reward"].values())
-        if not tweak and rng.random() < .3:
-            tweak["jackpots"] = add_jackpots(rng, m, nonpos0)
-        plans = [m]
-        if rng.random() < .4:
-            # the same planner object is reused on an MDP with the same labels but different dynamics
-            nonpos = F(m["gamma"]) == 1 or sparse or not any(F(r) > 0 for r in m["reward"].values())
-            plans.append(perturb(rng, m, nonpos))
-            if rng.random() < .6:
-                plans.append(m)
-    Vall = [vstar_of(m, family) for m in plans]
-    n = plans[0]["n"]
-    Vmax = [max(V[s] for V in Vall) for s in range(n)]
-    kind = rng.choice(["const", "exact", "slack"] + (["exact", "slack"] if shape in ("sparse", "neartie") else []))
-    if (tweak.get("jackpots") or {}).get("treasure") and kind == "const":
+def heuristic_for(rng, kind, Vmax, treasure):
+    n = len(Vmax)
+    if treasure and kind == "const":
         kind = "exact"      # a constant bound of ~1e12 everywhere only tests double-precision cancellation
     if kind == "const":
         c = max([F(0)] + Vmax) + rng.choice([0, 1, 5])
@@ -411,21 +506,96 @@ def gen_case(rng, tier, family=None):
         h = list(Vmax)
     else:
         h = [v + rng.choice([F(0), F(1, 4), F(1), F(3)]) for v in Vmax]
-    hf = [up(x) for x in h]
-    return {"family": family, "shape": shape,
-            "plans": [{"mdp": m, "vstar": [str(v) for v in V]} for m, V in zip(plans, Vall)],
-            "h": [list(x.as_integer_ratio()) for x in hf], "hkind": kind,
+    return [list(up(x).as_integer_ratio()) for x in h]
+
+
+def gen_random_mdp(rng, tier, tweak):
+    nmax = 7 if tier == "quick" else 10
+    gamma = "1" if rng.random() < .3 else None
+    u = rng.random()
+    if u < .08:
+        shape = "chain"
+        m = gen_chain(rng, rng.choice([3, 5, 6, 7, 9, 11, 13]), gamma)
+    elif u < .45:
+        shape = "sparse"
+        m = gen_sparse(rng, 13 if tier == "quick" else 16, gamma)
+    else:
+        shape = "dense"
+        nm = 1 if rng.random() < .08 else nmax          # a few single-state MDPs in every run
+        m = gen_mdp.gen_mdp(rng, nmax=nm, amax=3, gamma=gamma,
+                            proper=(gamma == "1"), min_states=min(nm, rng.choice([1, 2, 3, 4])))
+    nonpos = F(m["gamma"]) == 1 or shape != "dense" or not any(F(r) > 0 for r in m["reward"].values())
+    u = rng.random()
+    if u < .10:
+        tweak["extreme_probs"] = extreme_probs(rng, m)
+    elif u < .20:
+        tweak["reward_scale"] = rng.choice([1000, 10**5])
+        scale_rewards(m, tweak["reward_scale"])
+    elif u < .42:
+        tweak["jackpots"] = add_jackpots(rng, m, nonpos)
+    elif u < .57:
+        tweak["nondyadic"] = nondyadic(rng, m, nonpos)
+    elif u < .67 and F(m["gamma"]) == 1:
+        tweak["slow_exit"] = add_slow_exit(rng, m)
+    return m, shape, nonpos
+
+
+def gen_case(rng, tier, family=None):
+    """a case = ONE planner object (heuristic, seed, flags) and the list of MDPs it plans on in turn"""
+    family = family or "random"
+    shape = family
+    tweak = {}
+    other = []          # plans on a DIFFERENT problem (own size, own heuristic table)
+    if family == "neartie":
+        plans = [gen_neartie(rng)]
+        if plans[0].pop("big"):
+            tweak["big_magnitude"] = True
+    elif family == "large":
+        plans = [gen_large(rng, rng.randint(1040, 1120))]
+    elif family == "longchain":
+        plans = [gen_chain(rng, rng.choice([301, 333, 377]), rng.choice(["1", "19/20"]))]
+        for key in list(plans[0]["trans"]):          # acyclic version (judged by backward induction)
+            plans[0]["trans"][key] = [[max(ns for ns, p in plans[0]["trans"][key]), "1"]]
+    else:
+        m, shape, nonpos = gen_random_mdp(rng, tier, tweak)
+        plans = [m]
+        u = rng.random()
+        if u < .35:
+            # the same planner object is reused on an MDP with the same labels but different dynamics
+            plans.append(perturb(rng, m, nonpos))
+            if rng.random() < .6:
+                plans.append(m)
+        elif u < .5:
+            # ... or on an unrelated problem (other size, other action sets), and then on the first again
+            m2, _, _ = gen_random_mdp(rng, tier, {})
+            other = [m2]
+    fam = "large" if family == "longchain" else family
+    Vall = [vstar_of(m, fam) for m in plans]
+    n = plans[0]["n"]
+    Vmax = [max(V[s] for V in Vall) for s in range(n)]
+    kind = rng.choice(["const", "exact", "slack"] + (["exact", "slack"] if shape in ("sparse", "neartie", "chain") else []))
+    treasure = bool((tweak.get("jackpots") or {}).get("treasure"))
+    h = heuristic_for(rng, kind, Vmax, treasure)
+    out = [{"mdp": m, "vstar": [str(v) for v in V], "h": h} for m, V in zip(plans, Vall)]
+    for m2 in other:
+        V2 = vstar_of(m2, fam)
+        out.append({"mdp": m2, "vstar": [str(v) for v in V2], "h": heuristic_for(rng, kind, V2, False), "other_problem": True})
+        out.append(dict(out[0]))
+    single = len(out) == 1
+    return {"family": family, "shape": shape, "plans": out, "h": h, "hkind": kind,
             "seed": rng.randrange(4), "rao": rng.random() < .5, "rno": rng.random() < .5,
-            "default_args": family == "large", "tweak": tweak,
-            "rep": gen_rep(rng, len(plans) > 1) if family != "large" else {},
+            "default_args": family in ("large", "longchain"), "tweak": tweak,
+            "rep": gen_rep(rng, len(out) > 1) if family not in ("large", "longchain") else {},
             "budget_mode": (rng.choice(["exact", "exact", "short"])
-                            if family == "random" and len(plans) == 1 and rng.random() < .3 else None)}
+                            if family == "random" and single and rng.random() < .3 else None)}
 
 
 def view(case, k):
     """the single-plan case the per-result functions below work on"""
     v = {key: val for key, val in case.items() if key != "plans"}
     v["mdp"], v["vstar"] = case["plans"][k]["mdp"], case["plans"][k]["vstar"]
+    v["h"] = case["plans"][k].get("h", case["h"])
+    v["other_problem"] = bool(case["plans"][k].get("other_problem"))
     v["plan_index"] = k
     return v
 
@@ -499,8 +669,8 @@ def search_failing(case, res):
     """the property's clauses, evaluated with exact rationals on the implementation's answer"""
     n, nA, P, R, av, absf, ini, g, masked = prep(case["mdp"])
     Vs = [F(x) for x in case["vstar"]]
-    scale = scale_of(Vs, [vlib.frac(x) for x in case["h"]])
-    tiny = F(2, 10**9) * scale
+    scale = scale_of(Vs, [vlib.frac(x) for x in case["h"]], excluded(case))
+    tiny = 2 * tolerances(scale)[1]
     if not res["converged"]:
         return {"clause": "LAO* does not report convergence", "tips": res.get("tips")}
     for s, v in res["value_map"]:
@@ -558,9 +728,9 @@ def judge_large(case, res):
     n, nA, g = m["n"], m["nA"], F(m["gamma"])
     Vs = [F(x) for x in case["vstar"]]
     hq = [vlib.frac(x) for x in case["h"]]
-    scale = scale_of(Vs, hq)
-    tiny = F(1, 10**8) * scale
-    rho = F(2, 10**10) + F(1, 10**12) * scale
+    scale = scale_of(Vs, hq, excluded(case))
+    rho, ups = tolerances(scale)
+    tiny = 2 * ups
     if not res["converged"]:
         return {"clause": "LAO* does not report convergence", "iterations": res.get("iterations"),
                 "tips": (res.get("tips") or [])[:5]}
@@ -607,6 +777,8 @@ def judge_large(case, res):
             memo[s] = F(0) if m["absorbing"][s] else sum(
                 pa * sum(p * (rw(s, a, ns) + g * vpi(ns)) for ns, p in succ(s, a)) for a, pa in Pi[s].items())
         return memo[s]
+    for s in sorted(C, reverse=True):
+        vpi(s)
     opt = sum(F(p) * Vs[s] for s, p in m["init"])
     ret = sum(F(p) * vpi(s) for s, p in m["init"] if F(p) > 0)
     if abs(ret - opt) > tiny:
@@ -634,11 +806,8 @@ def terms_for(case, res):
     n, nA, P, R, av, absf, ini, g, masked = prep(case["mdp"])
     Vs = [F(x) for x in case["vstar"]]
     hq = [vlib.frac(x) for x in case["h"]]
-    scale = scale_of(Vs, hq)
-    # rho models the 10-decimal rounding of the arg-max in _policy_iteration (two actions whose rounded
-    # values agree differ by < 1e-10) plus floating-point noise of the linear solve
-    rho = F(2, 10**10) + F(1, 10**12) * scale
-    ups = F(1, 10**9) * scale
+    scale = scale_of(Vs, hq, excluded(case))
+    rho, ups = tolerances(scale)
     mt = " ".join([nat(n), nat(nA), qten(P), qten(R), bmat(av), blist(absf), qlist(ini), q(g)])
     held = {s: vlib.frac(v) for s, v in res["value_map"]}
     ex = [s in held for s in range(n)]
@@ -701,15 +870,16 @@ def terms_for(case, res):
 
 def run(ctx):
     tier = ctx.tier
-    nrand, ntie, nlarge = (60, 14, 1) if tier == "quick" else (600, 140, 3)
+    nrand, ntie, nlarge = (56, 14, 1) if tier == "quick" else (600, 140, 3)
     if ctx.replay_case:
         cases = [ctx.replay_case["detail"]["case"]]
     else:
         cases = ([gen_case(ctx.rng, tier) for _ in range(nrand)] +
                  [gen_case(ctx.rng, tier, "neartie") for _ in range(ntie)] +
-                 [gen_case(ctx.rng, tier, "large") for _ in range(nlarge)])
-    small = [i for i, c in enumerate(cases) if c.get("family") != "large"]
-    large = [i for i, c in enumerate(cases) if c.get("family") == "large"]
+                 [gen_case(ctx.rng, tier, "large") for _ in range(nlarge)] +
+                 [gen_case(ctx.rng, tier, "longchain") for _ in range(nlarge)])
+    small = [i for i, c in enumerate(cases) if c.get("family") not in ("large", "longchain")]
+    large = [i for i, c in enumerate(cases) if c.get("family") in ("large", "longchain")]
     impl = [None] * len(cases)
     box = {}
 
@@ -743,13 +913,16 @@ def run(ctx):
                 ctx.violation("C03:laostar-raises:" + rk["error"].split(":")[0],
                               {"case": case, "plan_index": k, "error": rk["error"], "trace": rk.get("trace_back")}, found=True)
                 continue
+            if rk.get("inputs_mutated"):
+                ctx.violation("C03:planning-mutates-the-caller's-MDP-objects",
+                              {"case": case, "plan_index": k}, found=False)
             if rk.get("budget_mode") == "short" and not rk["converged"]:
                 # one expansion short of what is needed: an honest "not converged" is outside the property;
                 # what remains checkable is that every held value is still an upper bound
                 nshort += 1
                 Vsx = [F(x) for x in cv["vstar"]]
-                sc = scale_of(Vsx, [vlib.frac(x) for x in case["h"]])
-                low = [(s, v) for s, v in rk["value_map"] if isinstance(v, str) or vlib.frac(v) < Vsx[s] - F(2, 10**9) * sc]
+                sc = scale_of(Vsx, [vlib.frac(x) for x in cv["h"]], excluded(cv))
+                low = [(s, v) for s, v in rk["value_map"] if isinstance(v, str) or vlib.frac(v) < Vsx[s] - 2 * tolerances(sc)[1]]
                 if low:
                     ctx.violation("C03:value held for an explored state is below its optimal value",
                                   {"case": case, "plan_index": k, "budget": rk["budget"], "states": low[:3]}, found=True)
@@ -783,6 +956,19 @@ def run(ctx):
             f["tweak_jackpot_rare_branch"] = bool(jp)
             f["tweak_jackpot_treasure_state"] = bool(jp.get("treasure"))
             f["tweak_jackpot_initial_entry"] = bool(jp.get("init"))
+            f["tweak_jackpot_k_above_40"] = any(r["k"] > 40 for r in jp.get("rows", []))
+            f["tweak_slow_exit_only_route_2^-k"] = bool(case.get("tweak", {}).get("slow_exit"))
+            f["tweak_nondyadic_thirds_tenths_sevenths"] = bool(case.get("tweak", {}).get("nondyadic")) and k != 1
+            f["tweak_nondyadic_row_of_ten_tenths"] = bool((case.get("tweak", {}).get("nondyadic") or {}).get("ten_tenths_row")) and k != 1
+            f["neartie_big_magnitude_relative_gap_1e-6"] = bool(case.get("tweak", {}).get("big_magnitude"))
+            f["reused_on_other_problem_then_first_again"] = bool(case["plans"][k].get("other_problem")) or (k == 2 and bool(case["plans"][1].get("other_problem")))
+            f["same_problem_constructed_twice_in_process"] = k == 2 and not rp.get("mdp_reuse")
+            f["rep_shared_list_and_distribution_objects"] = bool(rp.get("share"))
+            f["rep_int_typed_numbers"] = bool(rp.get("int_numbers"))
+            f["rep_float32_rewards"] = bool(rp.get("float32_rewards"))
+            f["one_action_id"] = cv["mdp"]["nA"] == 1
+            f["nS_equals_nA"] = cv["mdp"]["n"] == cv["mdp"]["nA"]
+            f["shape_chain_path_length_n-1"] = case.get("shape") == "chain"
             f["gamma_" + cv["mdp"]["gamma"]] = True
             f["single_state"] = cv["mdp"]["n"] == 1
             f["initially_all_absorbing_support"] = all(cv["mdp"]["absorbing"][s] for s, p in cv["mdp"]["init"] if F(p) > 0)
@@ -852,7 +1038,9 @@ def run(ctx):
                                       {"case": slim, "plan_index": k, "error": rk["error"]}, found=True)
                         continue
                     why = judge_large(view(case, k), rk)
-                    large_info.append({"states": case["plans"][k]["mdp"]["n"], "iterations": rk["iterations"],
+                    if rk.get("inputs_mutated"):
+                        ctx.violation("C03:planning-mutates-the-caller's-MDP-objects", {"case": slim, "plan_index": k}, found=False)
+                    large_info.append({"family": case["family"], "states": case["plans"][k]["mdp"]["n"], "iterations": rk["iterations"],
                                        "converged": rk["converged"], "solution_states": len(rk["solution_states"])})
                     if why:
                         found = why.pop("found", True)
@@ -872,6 +1060,8 @@ def run(ctx):
         "rule": ("a case is ONE LAOStar object (heuristic, seed 0..3, randomize_action_order / randomize_nextstate_order on/off) and the list of MDPs it plans on in turn. "
                  "family random: MDPs from harness/gen_mdp.py (1..%d states, 1..3 actions, state-dependent action sets, k/8 probabilities, zero entries, duplicate rows, explicit/implicit absorbing states incl. absorbing initial states, multi-state initial distributions; gamma in {1/2,3/4,7/8,9/10,19/20}, or gamma = 1 proper) or gen_sparse (6..%d states, forward-moving, side chains); in 40%% of them the same object then plans on a perturbed MDP with the same labels (re-drawn probabilities/rewards) and possibly on the first one again. "
                  "family neartie: chains of states with two actions of identical transitions (self-loop 1 - 2^-10), per-step reward gap 2^-22..2^-21, both id orders, gamma in {1, 1-2^-10, 1-2^-12}. "
+                 "random-family tweaks (one per case at most): rare branches 2^-27..2^-60 with rewards ~1/p / treasure states / tiny initial entries; slow-exit state whose only route to termination has probability 2^-27..2^-32 (gamma = 1); non-dyadic thirds / tenths / sevenths incl. a row of ten 0.1s; extreme 1-2^-k rows; rewards x1e3 / x1e5; corridors of 3..13 states; reuse of the planner on an unrelated problem of another size and then on the first again. "
+                 "family longchain: acyclic corridor of 301..377 states planned with default arguments (Python-judged like large). "
                  "family large: ~1100-way stochastic dispatch planned with DEFAULT constructor arguments (iteration budget), judged in Python only (convergence flag, exact backward-induction optimum, exact policy return, closure/consistency) because the Coq certificate is too slow at that size. "
                  "heuristic in {constant upper bound, exact optimum rounded up to a double, optimum + per-state slack} (admissible for every MDP of the case); distinct = structural hash of (MDP, heuristic, seed, flags, position in the plan list); non-trivial = explicit graph with more than one node" % ((7, 13) if tier == "quick" else (10, 16))),
         "samples": [sample] if sample else [],
